@@ -6,22 +6,26 @@ from parglare import Grammar, GLRParser
 
 import gen
 from pcommon import *
-from enc import ForestDump
+from enc import ForestDump, glr_alt_set, parse_glr_reply
 
 MANIFEST_ENTRY = {
     "category": "proof",
     "text": "Lean 4 theorems: the chart oracle decides sentencehood for every CFG (ambiguous, nullable, cyclic) once "
             "saturated; the tree checker decides the derivation relation; every run of the nondeterministic LR "
             "automaton over a wf table (which is what each GSS path of the GLR driver is) yields only derivation "
-            "trees. Per case the implementation's accept/reject is compared with the verified oracle, every tree "
+            "trees. An executable Lean model of the GLR driver itself (Model/GLR.lean: GSS, path search, limited "
+            "re-reductions, revisits, shifts) is run on every input without lexical ambiguity between heads and must "
+            "give the implementation's acceptance and exact set of packed alternatives. Per case the "
+            "implementation's accept/reject is also compared with the verified oracle, every tree "
             "taken from the forest (all up to a cap, sampled beyond) is checked by the verified checker, and only "
             "parglare.SyntaxError may be raised",
-    "note": "trusted: Lean kernel; match/skip tables from the real recognizers; the GSS driver of glr.py itself is "
-            "not modelled step by step: its outputs are validated by verified checkers on the explored scope "
-            "(translation-validation style), so completeness of acceptance is decided by oracle evaluation; "
+    "note": "trusted: Lean kernel; match/skip tables from the real recognizers; the GLR driver model is tied to "
+            "glr.py by exact correspondence, no theorem is proved about it: the implementation's outputs are judged "
+            "by verified checkers on the explored scope (translation-validation style), so completeness of "
+            "acceptance is decided by oracle evaluation; "
             "rejected sentences on nullable hidden-recursive grammars are the recorded finding F-GLR-1",
-    "technique": "Lean 4 proofs of oracle/checker correctness and LR-path soundness + verified checkers run on "
-                 "implementation output",
+    "technique": "Lean 4 proofs of oracle/checker correctness and LR-path soundness + executable GLR driver model in "
+                 "exact correspondence + verified checkers run on implementation output",
 }
 
 PROP = "C01"
@@ -94,8 +98,10 @@ def run_unit(u):
                             idxs += sorted({rng.randrange(n) for _ in range(10)} | {n - 1})
                         trees = [f[i] for i in idxs]
                     impl = ("forest", n)
+                    impl_glr = glr_alt_set(num, f)
                 except parglare.SyntaxError as e:
                     impl = ("syntax", err_pos(e))
+                    impl_glr = "syntax"
                 except BudgetExceeded:
                     res["violations"].append({"kind": "glr-parse-timeout", "case": case})
                     continue
@@ -106,14 +112,26 @@ def run_unit(u):
                 b.add("input", enc_input(num, p, text))
                 qs = b.add("sentence", CHART_FUEL)
                 qd = [b.add("derives", 1, enc_tree(num, t)) for t in trees]
-                checks.append((case, impl, qs, qd, trees))
+                checks.append((case, impl, qs, qd, trees, b.add("glr", 4000), impl_glr))
             out = b.run()
             st["traces"] += len(checks)
             if out[qwf] != "wf 1":
                 res["violations"].append({"kind": "table-not-wf", "case": {"grammar": gtxt, "tables": tname},
                                           "observed": out[qwf]})
-            for case, impl, qs, qd, trees in checks:
+            for case, impl, qs, qd, trees, qg, impl_glr in checks:
                 sent = out[qs]
+                # the GLR driver model (Model/GLR.lean): acceptance and the exact set of packed alternatives
+                mg = parse_glr_reply(out[qg])
+                if isinstance(mg, str) and mg in ("lexamb", "fuel"):
+                    bump(st, "glr_model_" + mg)
+                    model_agrees = True
+                else:
+                    st["glr_model_compared"] = st.get("glr_model_compared", 0) + 1
+                    model_agrees = (mg == impl_glr)
+                    if not model_agrees:
+                        res["disagreements"].append({"case": case, "what": "GLR driver model differs from GLRParser",
+                                                     "impl": (impl_glr if isinstance(impl_glr, str) else "forest of %d alternatives" % len(impl_glr)),
+                                                     "model": (mg if isinstance(mg, str) else "forest of %d alternatives" % len(mg))})
                 if impl[0] == "forest":
                     st["accepted"] += 1
                     if sent == "sentence 0":
@@ -140,7 +158,8 @@ def run_unit(u):
                         # "the grammar has an empty production"
                         if spec.exhaustive:
                             v["fingerprint"] = h16(["F-GLR-1", gtxt, tname, strip_layout(case["input"])])
-                        elif "nullable" in feats:
+                        elif "nullable" in feats and model_agrees:
+                            # the rejection is the one the model of the pinned reducer predicts
                             v["attribution"] = "glr-nullable-loss"
                         res["violations"].append(v)
                     if case["input"]:
